@@ -19,9 +19,12 @@ import (
 	"crypto/sha256"
 	"encoding/hex"
 	"encoding/json"
+	"errors"
 	"fmt"
+	"io/fs"
 	"os"
 	"os/exec"
+	"os/signal"
 	"path/filepath"
 	"runtime"
 	"strconv"
@@ -36,7 +39,9 @@ import (
 // call that can create, modify or rename a file, so that nothing slips by.
 const Syscalls = "open,openat,openat2,creat,write,pwrite64,writev,pwritev,pwritev2,fsync,fdatasync,sync_file_range,close," +
 	"rename,renameat,renameat2,unlink,unlinkat,ftruncate,truncate,link,linkat,symlink,symlinkat," +
-	"dup,dup2,dup3,sendfile,splice,copy_file_range,fallocate"
+	"dup,dup2,dup3,sendfile,splice,copy_file_range,fallocate," +
+	// process structure, for the parser: threads share the descriptor table, forked children do not
+	"clone,clone3,fork,vfork,execve"
 
 // SmallLimit is the largest content handled byte by byte (strace -s).
 const SmallLimit = 512
@@ -340,6 +345,59 @@ func (c *Case) SaveB(label string, expectErr bool, f func() (bool, error)) (repl
 	return replaced, err
 }
 
+// SaveLimited runs one real save while no regular file of the process may
+// grow beyond limit bytes (RLIMIT_FSIZE lowered for the duration of f): the
+// write(2) that crosses the limit is cut short and the next one fails with
+// EFBIG, what a full disk or a quota does to the save path.  limit 0 makes the
+// first write fail.  Whatever the save path returns, dst must afterwards be
+// byte-identical to the previous version (and exist if it existed).
+func (c *Case) SaveLimited(label string, limit uint64, f func() error) (err error) {
+	signal.Ignore(syscall.SIGXFSZ)
+	var old syscall.Rlimit
+	if e := syscall.Getrlimit(syscall.RLIMIT_FSIZE, &old); e != nil {
+		c.s.T.Fatalf("getrlimit: %v", e)
+	}
+	lim := old
+	lim.Cur = limit
+	if e := syscall.Setrlimit(syscall.RLIMIT_FSIZE, &lim); e != nil {
+		c.s.T.Fatalf("setrlimit: %v", e)
+	}
+	c.s.mark("limit-on")
+	func() {
+		defer func() {
+			if e := syscall.Setrlimit(syscall.RLIMIT_FSIZE, &old); e != nil {
+				c.s.T.Fatalf("setrlimit back: %v", e)
+			}
+			c.s.mark("limit-off")
+		}()
+		err = f()
+	}()
+	v, cur := snapshotB(c.Dst)
+	v.Label, v.ExpectErr = label, true
+	if err != nil {
+		v.Err = err.Error()
+		if len(v.Err) > 200 {
+			v.Err = v.Err[:200]
+		}
+	}
+	c.want, c.hasWant = nil, false
+	c.judge(&v, cur, false)
+	c.versions = append(c.versions, v)
+	c.Classes = append(c.Classes, "fail-write-limit")
+	if err == nil {
+		c.Classes = append(c.Classes, "fail-write-limit-unreported")
+	}
+	return err
+}
+
+// Fail records a monitor failure found by the package harness itself (first
+// one wins, as with the content judgement).
+func (c *Case) Fail(format string, a ...any) {
+	if c.contentBad == "" {
+		c.contentBad = fmt.Sprintf(format, a...)
+	}
+}
+
 // Class adds a branch class.
 func (c *Case) Class(cl string) { c.Classes = append(c.Classes, cl) }
 
@@ -383,6 +441,14 @@ func (s *Session) Case(name, dst string, keep []string, classes []string, body f
 			if err == nil {
 				h := sha256.Sum256(b)
 				o = obs{Exists: true, Len: len(b), Sha: hex.EncodeToString(h[:])}
+			} else if !errors.Is(err, fs.ErrNotExist) {
+				// only "no such file" is the observation "absent"; anything
+				// else (descriptor shortage ...) is no observation at all
+				if last {
+					return
+				}
+				runtime.Gosched()
+				continue
 			}
 			polls++
 			if len(seen) == 0 || seen[len(seen)-1] != o {
